@@ -684,7 +684,7 @@ fn pre_of(c: &SrtlaConnection, now: u64) -> Pre {
         fail_count: c.reconnection.reconnect_failure_count,
         lka: c.verif_last_keepalive_sent(),
         stamps: (c.weak, c.loss_degraded, c.cc_backing_off, c.cc_target_bps),
-        gated: c.is_stall_gated(),
+        gated: c.stall_gated,
         score_ref: if c.connected {
             c.window as i64 / (c.in_flight_packets as i64 + c.batch_sender.queued_count() as i64 + 1).max(1)
         } else {
@@ -1524,8 +1524,8 @@ impl SysComp {
                 match uniq {
                     Some(u) if holders.contains(&u) || failed_here.contains(&u) => {
                         let c = &w.links[u];
-                        if !reset[u] && (!c.is_schedulable() || c.is_timed_out(now) || c.is_stall_gated() || !c.connected) {
-                            mon.fail("C04", "sys-ineligible-route", format!("datagram #{tag} routed to link {} (schedulable={} timed_out={} gated={} connected={})", c.conn_id, c.is_schedulable(), c.is_timed_out(now), c.is_stall_gated(), c.connected));
+                        if !reset[u] && (!c.is_schedulable() || c.is_timed_out(now) || c.stall_gated || !c.connected) {
+                            mon.fail("C04", "sys-ineligible-route", format!("datagram #{tag} routed to link {} (schedulable={} timed_out={} gated={} connected={})", c.conn_id, c.is_schedulable(), c.is_timed_out(now), c.stall_gated, c.connected));
                         }
                         // C10: classic mode, guard off = the reference algorithm
                         if cfg.mode.is_classic() && !cfg.stall_deselect {
@@ -1576,7 +1576,7 @@ impl SysComp {
                         let c = &w.links[*h];
                         *g.probes.entry(c.conn_id).or_insert(0) += 1;
                         mon.count("probe-copy");
-                        if !reset[*h] && !(c.is_stall_gated() && c.connected) {
+                        if !reset[*h] && !(c.stall_gated && c.connected) {
                             mon.fail("C01", "copy-on-ungated-link", format!("datagram #{tag} duplicated on link {} which is not stall-gated", c.conn_id));
                         }
                         if !is_data {
